@@ -80,6 +80,20 @@ fn run_group(content: &[u8], pat: &str, f: &PFlags) -> Option<(Group, bool)> {
             errors.push(format!("{}: {}", n, e));
         }
     }
+    // with line numbers on, every line the standard printer writes is a
+    // numbered record of the input — nothing else may appear
+    for (n, r) in [("standard", &std), ("only-matching", &only)] {
+        for seg in r.out.split(|&b| b == b'\n') {
+            if seg.is_empty() {
+                continue;
+            }
+            let d = seg.iter().take_while(|b| b.is_ascii_digit()).count();
+            if d == 0 || seg.get(d) != Some(&b':') {
+                errors.push(format!("{}: output line {} is not a numbered record", n, esc(seg)));
+                break;
+            }
+        }
+    }
     let (mut jm, mut jsub, mut jempty) = (0, 0, 0);
     for l in js.out.split(|&b| b == b'\n') {
         if l.is_empty() {
